@@ -1,7 +1,7 @@
 (* Extraction of the executable model. Only ExtrOcamlBasic directives are used
    (bool, option, unit, list, prod, sumbool, sumor -> OCaml's own); N, Z, positive, nat stay inductive. *)
 From Coq Require Import Extraction ExtrOcamlBasic.
-From CV Require Import Base Consts Token PostAction Env Loop Transient Signals Timeout ConcPing ConcChannel RunLoop ConcExec SrcAsync GenLife.
+From CV Require Import Base Consts Token PostAction Env Loop Transient Signals Timeout ConcPing ConcChannel RunLoop ConcExec SrcAsync GenLife StreamSrc.
 Extraction Language OCaml.
 Extraction "model.ml"
   Consts.BITS_VERSION Consts.BITS_SUBID
@@ -16,4 +16,5 @@ Extraction "model.ml"
   RunLoop.r_init RunLoop.r_step
   ConcExec.e_init ConcExec.e_step
   SrcAsync.a_init SrcAsync.a_step SrcAsync.w_init SrcAsync.w_step
-  GenLife.gl_run.
+  GenLife.gl_run
+  StreamSrc.q_run StreamSrc.q_obs.
